@@ -297,3 +297,33 @@ func (e *Engine) showValue(v Value) string {
 	}
 	return fmt.Sprintf("%T", v)
 }
+
+// deepShow renders a concrete value structurally (used as an interning key).
+func (e *Engine) deepShow(st *State, v Value) string {
+	switch x := v.(type) {
+	case StructV:
+		var sb strings.Builder
+		sb.WriteByte('{')
+		for _, f := range x.F {
+			sb.WriteString(e.deepShow(st, f))
+			sb.WriteByte(',')
+		}
+		sb.WriteByte('}')
+		return sb.String()
+	case ArrV:
+		var sb strings.Builder
+		sb.WriteByte('[')
+		for _, f := range x.E {
+			sb.WriteString(e.deepShow(st, f))
+			sb.WriteByte(',')
+		}
+		sb.WriteByte(']')
+		return sb.String()
+	case StrV:
+		if s := e.normStr(x); s.Conc {
+			return fmt.Sprintf("%q", s.S)
+		}
+		return "<sym>"
+	}
+	return e.showValue(v)
+}
